@@ -4,6 +4,7 @@ A check's ``run_shard(ctx)`` reports everything through this object; the driver
 merges the per-shard JSON files.  Nothing here imports ofxtools.
 """
 import os
+import sys
 import hashlib
 import json
 import random
@@ -119,6 +120,7 @@ class Ctx:
             "shard": self.shard,
             "host_tz": getattr(self, "host_tz", None),
             "hash_seed": os.environ.get("PYTHONHASHSEED"),
+            "optimize": bool(sys.flags.optimize),
             "evaluations": self.evaluations,
             "distinct": sorted(self._distinct),
             "distinct_by_construction": self.distinct_by_construction,
